@@ -687,6 +687,8 @@ static void print_items(void) {
 }
 
 static size_t st_ops, st_items, st_dev, st_kf;
+/* branch counters of the extension round: Slice_Arg (argument `_` / negative: counted from the end / clamped to len / clamped to 0) */
+static size_t st_sa_blank, st_sa_neg, st_sa_hi, st_sa_lo;
 static void deviation(Node* n, int aspect, size_t lineno, const char* what) {
   const char* sig = sig_for(n, aspect);
   st_dev++; if (!strncmp(sig, "kf-", 3)) st_kf++;
@@ -1023,11 +1025,30 @@ static void op_slice_arg(const char* l, size_t lineno) {
   if (exc) { O("construct=%s", v_exc_name(exc)); return; }
   struct Range* r = ((struct Slice*)s)->range;
   O("range=%lld,%lld,%lld len=%zu", (long long)r->start, (long long)r->stop, (long long)r->step, len(s));
-  (void)lineno;
+  /* definition-based oracle for Slice_Arg / slice_stack (extension round): `_` = 0 / n / 1; an index counts from the end when
+     negative and is clamped into [0, n]; the step is taken as it is.  Computed in __int128: no conversion can interfere. */
+  {
+    long long want[3] = { 0, nn, 1 }; int have[3] = { 0, 0, 0 }; const char* tk[3] = { NULL, NULL, NULL };
+    if (k - 1 == 1) tk[1] = t[0];
+    else if (k - 1 >= 2) { tk[0] = t[0]; tk[1] = t[1]; if (k - 1 == 3) tk[2] = t[2]; }
+    for (int p = 0; p < 3; p++) {
+      if (!tk[p] || !strcmp(tk[p], "_")) { st_sa_blank++; continue; }
+      __int128 x = strtoll(tk[p], NULL, 10); have[p] = 1;
+      if (p == 2) { want[p] = (long long)x; continue; }
+      if (x < 0) { st_sa_neg++; x += nn; }
+      if (x > nn) { st_sa_hi++; x = nn; }
+      if (x < 0) { st_sa_lo++; x = 0; }
+      want[p] = (long long)x;
+    }
+    (void)have;
+    if ((long long)r->start != want[0] || (long long)r->stop != want[1] || (long long)r->step != want[2])
+      X("sig=slice-arg line=%zu what=slice_stack stored (%lld,%lld,%lld), the definition (negative = from the end, clamped into [0,len]) gives (%lld,%lld,%lld)",
+        lineno, (long long)r->start, (long long)r->stop, (long long)r->step, want[0], want[1], want[2]);
+  }
 }
 
 /* ------------------------------------------------------------------------------------------------ worker / parent */
-typedef struct { volatile size_t cur; volatile int done; volatile size_t ops, items, dev, kf; } Shared;
+typedef struct { volatile size_t cur; volatile int done; volatile size_t ops, items, dev, kf, sa[4]; } Shared;
 static Shared* sh;
 
 static void worker(char** lines, size_t n, size_t from) {
@@ -1058,6 +1079,7 @@ static void worker(char** lines, size_t n, size_t from) {
     }
     else O("bad-op");
     sh->ops += 1; sh->items = st_items; sh->dev = st_dev; sh->kf = st_kf;
+    sh->sa[0] = st_sa_blank; sh->sa[1] = st_sa_neg; sh->sa[2] = st_sa_hi; sh->sa[3] = st_sa_lo;
   }
   alarm(0);
   sh->done = 1;
@@ -1071,15 +1093,15 @@ int main(int argc, char** argv) {
   sh = mmap(NULL, sizeof(Shared), PROT_READ | PROT_WRITE, MAP_SHARED | MAP_ANONYMOUS, -1, 0);
   if (sh == MAP_FAILED) { perror("mmap"); return 2; }
   memset((void*)sh, 0, sizeof *sh);
-  size_t from = 0, crashes = 0, items = 0, dev = 0, kf = 0;
+  size_t from = 0, crashes = 0, items = 0, dev = 0, kf = 0, sa[4] = { 0, 0, 0, 0 };
   while (from < n) {
     fflush(stdout);
-    sh->cur = (size_t)-1; sh->items = sh->dev = sh->kf = 0;
+    sh->cur = (size_t)-1; sh->items = sh->dev = sh->kf = 0; for (int i = 0; i < 4; i++) sh->sa[i] = 0;
     pid_t pid = fork();
     if (pid < 0) { perror("fork"); return 2; }
     if (pid == 0) { worker(lines, n, from); fflush(stdout); _exit(0); }
     int st = 0; waitpid(pid, &st, 0);
-    items += sh->items; dev += sh->dev; kf += sh->kf;
+    items += sh->items; dev += sh->dev; kf += sh->kf; for (int i = 0; i < 4; i++) sa[i] += sh->sa[i];
     if (sh->done) break;
     size_t k = sh->cur;
     if (k == (size_t)-1) { fprintf(stderr, "worker died before its first op\n"); return 3; }
@@ -1107,5 +1129,6 @@ int main(int argc, char** argv) {
     from = k + 1;
   }
   I("ops=%zu items=%zu deviations=%zu in-known-territory=%zu crashes=%zu", (size_t)sh->ops, items, dev, kf, crashes);
+  I("slice_arg_blank=%zu slice_arg_from_end=%zu slice_arg_clamped_to_len=%zu slice_arg_clamped_to_0=%zu", sa[0], sa[1], sa[2], sa[3]);
   return 0;
 }
